@@ -551,6 +551,32 @@ func c06Dense(w *World, r *Report, id, slug string) {
 
 func c06Cache(w *World, r *Report, id, slug string) {
 	ob := r.Ob(id, slug, "stores to the cache's buffer field occur only in its constructor and its append helper, which is called only by put; every call of put in the cached reader is reachable only over an edge establishing one of: cache len()==0, len(served cached run) >= 1, first new entry's Index - largestIndex() == 1; the event dispatcher reaches LogCache.LogCompacted / NodeDeleted on the log-compacted / node-deleted arm and those delete the shard's cache", "a gap inside the cache is served as if the log were dense; a cache that survives compaction serves indices the log no longer has")
+
+	// a failed log read is reported: from the error edge of a read no nil-error return is reachable
+	if q := w.Func("storage/logreader", "Cached.QueryRaftLog"); q != nil {
+		eachInstr(q, func(in ssa.Instruction) {
+			c := plainCall(in)
+			if c == nil || StaticCallee(c) == nil || StaticCallee(c).Name() != "readLog" {
+				return
+			}
+			rv := in.(ssa.Value)
+			rctx := &ExprCtx{Alias: map[ssa.Value]string{rv: "read"}}
+			wk := &Walk{Target: func(x ssa.Instruction) bool {
+				ret, ok := x.(*ssa.Return)
+				return ok && !isErrorReturn(ret)
+			}, EdgeOK: func(b *ssa.BasicBlock, k int) bool {
+				for _, l := range rctx.EdgeLits(b, k) {
+					if l.Kind == "eq" && !l.Neg && l.B == "nil" && l.A == "read#1" {
+						return false
+					}
+				}
+				return true
+			}}
+			if p := wk.Find(after(in)); p != nil {
+				ob.Violate("read-error-swallowed", instrPos(p.Hit), "the cached reader can answer successfully although a log read failed (the requested start was compacted: the follower is streamed the cached tail instead of being told to use a snapshot)", w.PathString(p)...)
+			}
+		})
+	}
 	cacheT := w.NamedType("storage/logreader", "cache")
 	if cacheT == nil {
 		ob.Undecided("anchor", "storage/logreader.cache not found")
